@@ -582,6 +582,80 @@ pub fn reentry(rng: &mut StdRng) -> Program {
 /// Jumps that aim at the very edges of the code: a JUMPDEST that is the last byte of the code, and a 0x5b
 /// byte inside a trailing PUSH whose immediate is cut short by the end of the code (push data, not a
 /// destination, however it is decoded).
+/// Jumps whose target the code *computes* from constants: PC-relative (`PC; PUSH k; ADD; JUMP`), scaled
+/// (`PC; PUSH m; MUL`), from the end of the code (`PUSH k; CODESIZE; SUB`) and jump tables
+/// (`base + index * stride`), landing exactly on a JUMPDEST or one byte beside it.  Several JUMPDESTs lie around
+/// the right one, so that a target that is computed slightly wrong still lands on *a* destination.
+pub fn computed_targets(rng: &mut StdRng) -> Program {
+    let conditional = rng.gen_bool(0.4);
+    let mut code: Vec<u8> = Vec::new();
+    // a few instructions first, so that PC is not 0
+    for _ in 0..rng.gen_range(0..4) {
+        code.extend([0x60, rng.gen(), 0x50]);
+    }
+    if rng.gen_bool(0.3) {
+        code.push(0x5b);
+    }
+    if conditional {
+        code.push(CALLDATASIZE);
+    }
+    let miss: i64 = *[0i64, 0, 0, 1, -1].choose(rng).unwrap();
+    let kind = rng.gen_range(0..5);
+    // the jump sequence has a fixed length per kind; the landing pad follows after a gap
+    let seq_len: usize = match kind { 0 => 5, 1 => 5, 2 => 5, 3 => 9, _ => 6 };
+    let start = code.len();
+    let gap = rng.gen_range(1..6usize);
+    // pad: STOP, then JUMPDEST-separated blocks; the right destination is one of them
+    let mut pad: Vec<u8> = vec![STOP];
+    let mut dests = Vec::new();
+    for i in 0..gap + 3 {
+        dests.push(start + seq_len + pad.len());
+        pad.extend([0x5b, 0x60, i as u8 + 1, 0x60, 0x0d, SSTORE, STOP]);
+    }
+    let mut want = dests[gap] as i64;
+    let fam;
+    match kind {
+        0 => {
+            // PC; PUSH1 k; ADD; JUMP   (PC is the offset of the PC instruction itself)
+            let pc = start as i64;
+            code.extend([0x58, 0x60, (want + miss - pc) as u8, ADD, if conditional { JUMPI } else { JUMP }]);
+            fam = "computed-target[pc-relative]";
+        }
+        1 => {
+            // PUSH1 k; PC; ADD; JUMP
+            let pc = start as i64 + 2;
+            code.extend([0x60, (want + miss - pc) as u8, 0x58, ADD, if conditional { JUMPI } else { JUMP }]);
+            fam = "computed-target[pc-relative-swapped]";
+        }
+        2 => {
+            // PUSH1 k; CODESIZE; SUB; JUMP   (codesize - k)
+            let size = (start + seq_len + pad.len()) as i64;
+            code.extend([0x60, (size - (want + miss)) as u8, 0x38, SUB, if conditional { JUMPI } else { JUMP }]);
+            fam = "computed-target[from-codesize]";
+        }
+        3 => {
+            // jump table: PUSH1 base; PUSH1 stride; PUSH1 index; MUL; ADD; JUMP
+            let base = dests[0] as i64;
+            code.extend([0x60, (base + miss) as u8, 0x60, 7, 0x60, gap as u8, MUL, ADD, if conditional { JUMPI } else { JUMP }]);
+            fam = "computed-target[jump-table]";
+        }
+        _ => {
+            // PC; PUSH1 m; MUL; JUMP with the code padded so that pc * m is the destination, when it can be
+            let pc = start as i64;
+            let m = if pc > 0 && want % pc == 0 && want / pc < 256 { want / pc } else { 1 };
+            if m == 1 {
+                // no exact multiple: aim at pc itself (not a destination unless a JUMPDEST happens to sit there)
+                want = pc;
+            }
+            code.extend([0x58, 0x60, m as u8, MUL, if conditional { JUMPI } else { JUMP }, 0x00]);
+            fam = "computed-target[pc-scaled]";
+        }
+    }
+    let _ = want;
+    code.extend(pad);
+    Program { family: fam.into(), code }
+}
+
 pub fn code_edges(rng: &mut StdRng) -> Program {
     let conditional = rng.gen_bool(0.6);
     let mut code: Vec<u8> = Vec::new();
@@ -702,7 +776,8 @@ pub fn stack_effects(rng: &mut StdRng) -> Program {
 }
 
 pub fn any(rng: &mut StdRng) -> Program {
-    match rng.gen_range(0..15) {
+    match rng.gen_range(0..17) {
+        15 | 16 => computed_targets(rng),
         14 => stack_effects(rng),
         13 => code_edges(rng),
         12 => reentry(rng),
